@@ -63,3 +63,15 @@ impl LuaIndex for LuaGlobalIndex {
         self.global_decl.clear();
     }
 }
+
+/// Verification hook (feature `verif-hooks`, off by default): entry count of every container
+/// of this index, so that tests can observe growth of indexed state.
+#[cfg(feature = "verif-hooks")]
+impl LuaGlobalIndex {
+    pub fn verif_sizes(&self) -> Vec<(&'static str, usize)> {
+        vec![
+            ("global.global_decl", self.global_decl.len()),
+            ("global.global_decl.entries", self.global_decl.values().map(|m| m.len()).sum::<usize>()),
+        ]
+    }
+}
